@@ -546,6 +546,29 @@ def main():
                 ok = len(own) >= 1 and all(passes(r) for r in own)
                 ob("%s:P_%s_returns_the_socket_result_unchanged" % (kind, meth), "%s :: SnmpSession.%s" % (f, meth), ok, "%s:%d" % (f, m.lineno),
                    "SnmpSession.%s does not return the result of the socket call as it is" % meth)
+        # ---- Q: get_many hands the caller's oids to the socket, once: `oids` is an Iterable (possibly one-shot) and may be
+        #         consumed exactly once, by the list(...) that reaches the socket (C08 / C03: what is asked for is what is sent)
+        for f, kind, sockcall in (('sync_client/client.py', 'sync', 'get_many'), ('async_client/client.py', 'async', 'send_get_many')):
+            m = find(trees[f], 'SnmpSession', 'get_many')
+            uses = [n for n in ast.walk(m) if isinstance(n, ast.Name) and n.id == 'oids' and isinstance(n.ctx, ast.Load)]
+            calls = [n for n in ast.walk(m) if isinstance(n, ast.Call) and (attr_chain(n.func) or [''])[-1] == sockcall and len(n.args) == 1]
+            ok = len(uses) == 1 and len(calls) == 1
+            if ok:
+                a = calls[0].args[0]
+                direct = isinstance(a, ast.Call) and isinstance(a.func, ast.Name) and a.func.id == 'list' and len(a.args) == 1 and a.args[0] is uses[0]
+                # or: req = list(oids) at the top level of the method, and the socket is given `req`
+                via = None
+                for st in m.body:
+                    if isinstance(st, ast.Assign) and len(st.targets) == 1 and isinstance(st.targets[0], ast.Name) and isinstance(st.value, ast.Call) \
+                            and isinstance(st.value.func, ast.Name) and st.value.func.id == 'list' and len(st.value.args) == 1 and st.value.args[0] is uses[0]:
+                        via = st.targets[0].id
+                ok = direct or (via is not None and isinstance(a, ast.Name) and a.id == via)
+                # the consumption must not sit inside a nested function: _send may run the sender twice (full send buffer)
+                nested = [n for n in ast.walk(m) if n is not m and isinstance(n, (ast.FunctionDef, ast.AsyncFunctionDef, ast.Lambda))]
+                if any(uses[0] in list(ast.walk(n)) for n in nested):
+                    ok = False
+            ob("%s:Q_get_many_consumes_the_oids_once_into_the_request" % kind, "%s :: SnmpSession.get_many" % f, ok, "%s:%d" % (f, m.lineno),
+               "`oids` (an Iterable, possibly one-shot) is used %d time(s), is consumed inside a function that may run twice, or does not reach the socket as list(oids)" % len(uses))
         for f in ('sync_client/client.py', 'async_client/client.py'):
             init = find(trees[f], 'SnmpSession', '__init__')
             if init is None:
